@@ -35,6 +35,12 @@ MUT = {
     "forceunstake-errors-on-missing": lambda wt: sub(wt + "/fsm/byzantine.go",
         "s.log.Warnf(\"validator %s is not found to be force unstaked\", address.String()) // defensive\n\t\treturn nil",
         "return err"),
+    # second-wave seeded changes (hand-recreated)
+    "retire-own-chain": lambda wt: sub(wt + "/fsm/automatic.go", "if qc.Results.Retired && qc.Header.ChainId != s.Config.ChainId {", "if qc.Results.Retired {"),
+    "send-stale-recipient": lambda wt: sub(wt + "/fsm/message.go",
+        "\t// subtract from sender\n\tif err := s.AccountSub(crypto.NewAddressFromBytes(msg.FromAddress), msg.Amount); err != nil {\n\t\treturn err\n\t}\n\t// if special vesting send",
+        "\t// pre-check the recipient for overflow\n\tto, err := s.GetAccount(crypto.NewAddressFromBytes(msg.ToAddress))\n\tif err != nil {\n\t\treturn err\n\t}\n\tif to.Amount > math.MaxUint64-msg.Amount {\n\t\treturn ErrInvalidAmount()\n\t}\n\t// subtract from sender\n\tif err := s.AccountSub(crypto.NewAddressFromBytes(msg.FromAddress), msg.Amount); err != nil {\n\t\treturn err\n\t}\n\tif msg.VestingStartHeight == 0 && msg.VestingEndHeight == 0 {\n\t\tif msg.Amount == 0 {\n\t\t\treturn nil\n\t\t}\n\t\tto.Amount += msg.Amount\n\t\treturn s.SetAccount(to)\n\t}\n\t// if special vesting send")
+        or sub(wt + "/fsm/message.go", "import (\n\t\"bytes\"\n", "import (\n\t\"bytes\"\n\t\"math\"\n"),
     # ---- C13
     "sort-tiebreak-asc": lambda wt: sub(wt + "/fsm/validator.go", "return bytes.Compare(b.Address, a.Address)", "return bytes.Compare(a.Address, b.Address)"),
     "sort-no-tiebreak": lambda wt: sub(wt + "/fsm/validator.go", "return bytes.Compare(b.Address, a.Address)", "return 0"),
